@@ -132,6 +132,19 @@ def rule_sync(ctx):
     f = cl.methods['_multichannel_perform']
     src = full(f.node)
     ok = 'getattr(i[0], selector)(*i[1:]) for i in utl.flop([l, *args])' in src and 'return type(self)(l)' in src
+    # nested rows are channel lists themselves (so the selector recurses), everything else a unit parameter
+    firsts = [s_ for s_ in walk_local(f.node) if isinstance(s_, ast.Assign) and isinstance(s_.value, ast.ListComp)
+              and norm(s_.value.generators[0].iter) == 'self']
+    rec = False
+    if firsts:
+        lc = firsts[0].value
+        v = norm(lc.generators[0].target)
+        e = lc.elt
+        rec = isinstance(e, ast.IfExp) and norm(e.test) in (f'isinstance({v}, list)', f'isinstance({v}, (list,))') and \
+            norm(e.body) in (f'ChannelList({v})', f'type(self)({v})') and norm(e.orelse) == f'gpp.ugen_param({v})' and not lc.generators[0].ifs
+    ctx.ob('C03.sync', f'{cl.module.name}:ChannelList._multichannel_perform:nested-rows', rec,
+           'a nested row must be wrapped as a channel list so that the convenience method recurses into it; wrapped as a plain unit '
+           'parameter it has no such method (AttributeError)', f.node, cl.module)
     ctx.ob('C03.sync', f'{cl.module.name}:ChannelList._multichannel_perform', ok,
            'must zip the channels with the arguments (flop) and apply the selector per row', f.node, cl.module)
     # AbstractSequence hooks
@@ -286,6 +299,12 @@ def rule_core(ctx):
     ok = 'if len(a) >= len(b): b = wrap_extend(list(b), len(a)) else: a = wrap_extend(list(a), len(b))' in src and \
         'return t((op(i[0], i[1]) for i in zip(a, b)))' in src
     ctx.ob('C03.core', f'{lb.module.name}:list_binop:wrap-zip', ok, 'binary list op must wrap the shorter operand and zip', lb.node, lb.module)
+    # tuples are opaque to expansion: the sequence test of the list algebra must not include tuple
+    tseq = [s_ for s_ in walk_local(lb.node) if isinstance(s_, ast.Assign) and norm(s_.targets[0]) == 't_seq']
+    ctx.require(len(tseq) == 1, 'C03.core', 'list_binop: sequence-type tuple `t_seq` not bound')
+    ctx.ob('C03.core', f'{lb.module.name}:list_binop:tuple-opaque', 'tuple' not in norm(tseq[0].value),
+           f'list_binop zips operands of the types {norm(tseq[0].value)}: ChannelList([a, b]) * (1, 2) gives [a * 1, b * 2], a tuple is expanded '
+           f'like a list by channel-list arithmetic (unit-generator constructors and ChannelList() keep it opaque)', tseq[0], lb.module)
     we = repo.func('sc3.base.utils:wrap_extend')
     ctx.ob('C03.core', f'{we.module.name}:wrap_extend', full(we.node).endswith('return lst * (n // l) + lst[:n % l]'),
            'wrap_extend must repeat cyclically to length n', we.node, we.module)
@@ -312,6 +331,8 @@ def run(ctx):
 
 
 MUTANTS = [
+    dict(rule='C03.sync', name='convenience methods do not recurse into nested rows (fix reverted)', file='sc3/synth/ugen.py',
+         old="        l = [\n            ChannelList(i) if isinstance(i, list) else gpp.ugen_param(i)\n            for i in self]\n", new="        l = [gpp.ugen_param(i) for i in self]\n"),
     dict(rule='C03.sync', name='(fix reverted) UGen.range computes on list bounds with Python operators', file='sc3/synth/ugen.py',
          old="        lo, hi = (ChannelList(x) if isinstance(x, list) else x for x in (lo, hi))\n", new=""),
     dict(rule='C03.core', name='MulAdd._init_ugen override removed (seed C03-d)', file='sc3/synth/ugen.py',
